@@ -87,6 +87,9 @@ def run(ctx):
     sources = [(n, d, False) for n, d in fmt.fixtures()]
     cl = gen.classes()
     sources.append(("large", gen.large_project(rnd, spec).read(), False))        # scale
+    for k in range(4 if q else 40):         # user-defined controllers over negative-minimum targets, and chained through nested MetaModules
+        sources.append(("MetaModule-negmin%d" % k, api.Synth(gen.meta_negmin(rnd, spec)).read(), False))
+        sources.append(("MetaModule-chain%d" % k, api.Synth(gen.chain_meta(rnd, spec)).read(), False))
     for k in range(6 if q else 60):         # consecutive Samplers that use different slots (what one holds must not show up in the other)
         sources.append(("Sampler-seq%d" % k, api.Synth(gen.rand_module(rnd, cl["Sampler"], spec, depth=0, in_project=False)).read(), False))
     for i in range(30 if q else 600):
